@@ -219,10 +219,15 @@ def enc2_case(case):
     """('enc2', override, http1, explicit1, parent1, http2, explicit2): encoding of the sheet imported by an
     imported sheet"""
     cp = _cp()
-    _, override, http1, ex1, parent, http2, ex2 = case
+    _, override, http1, ex1, parent, http2, ex2 = case[:7]
+    astext = len(case) > 7 and case[7]
     c1, e1 = content_of(ex1, '@import "b.css"; i { top: 1px }')
     if ex1 == 'charset':
         c1 = ('@charset "latin-1"; @import "b.css"; i { top: 1px }').encode('latin-1')
+    if astext and ex1 != 'bom':
+        # the fetcher hands over text: nothing rewrites an @charset rule in it, so while it is parsed the rule may name
+        # another encoding than the one the sheet has (HTTP wins)
+        c1 = c1.decode('latin-1')
     c2, e2 = content_of(ex2, 'j { top: 2px }')
     top = ('@charset "%s"; ' % parent if parent else '') + '@import "a.css";'
 
@@ -248,7 +253,7 @@ def enc2_oracle(case):
 
 
 def enc2_line(case):
-    _, override, http1, ex1, parent, http2, ex2 = case
+    _, override, http1, ex1, parent, http2, ex2 = case[:7]
 
     def cid(e):
         return str(ENC_ID[norm_enc(e)] if norm_enc(e) in ENC_ID else ENC_ID[e]) if e else '-'
@@ -503,6 +508,8 @@ def gen_cases(tier, seed):
                     for http2 in [None, 'utf-8', 'cp1252']:
                         for ex2 in [None, 'charset', 'bom']:
                             ecases.append(('enc2', ov, http1, ex1, parent, http2, ex2))
+                            if ex1 == 'charset':
+                                ecases.append(('enc2', ov, http1, ex1, parent, http2, ex2, True))
     fcases = []
     for n in (1, 2, 3):
         for combo in itertools.product([('all', True), ('all', False), ('print', True), ('print', False), ('tv, screen', True)], repeat=n):
